@@ -47,3 +47,19 @@ Fixpoint sites (s : stmt) : list nat :=
   | _ => []
   end.
 Definition func_sites (f : func) : list nat := flat_map sites (snd f).
+
+(* (site, operations at that site) in source order: which shared-memory operation each
+   micro-step of a machine stands for *)
+Definition osite_ops (o : option nat) (ops : list op) : list (nat * list op) :=
+  match o with Some n => [(n, ops)] | None => [] end.
+Fixpoint site_ops (s : stmt) : list (nat * list op) :=
+  match s with
+  | SOps o ops _ => osite_ops o ops
+  | SIf o ops _ th el => osite_ops o ops ++ flat_map site_ops th ++ flat_map site_ops el
+  | SLoop o ops _ b => osite_ops o ops ++ flat_map site_ops b
+  | SSwitch o ops _ cs => osite_ops o ops ++ flat_map (fun c => flat_map site_ops (snd c)) cs
+  | SSelect o cs => osite_ops o [] ++ flat_map (fun c => flat_map site_ops (snd c)) cs
+  | SReturn o ops _ => osite_ops o ops
+  | _ => []
+  end.
+Definition func_site_ops (f : func) : list (nat * list op) := flat_map site_ops (snd f).
